@@ -9,8 +9,6 @@ From Frugal Require Import Bytes Wire Skip Values Desc Spec Encode Decode Checks
 From Frugal.gen Require Import Params.
 From Frugal.proofs Require Import GenDecParams Corollaries.
 From Frugal.props Require Import Examples.
-From Frugal Require Import DisciplineChecks.
-From Frugal.proofs Require Import GenDesc.
 Import ListNotations.
 
 (* value level: the reference decoder does not distinguish nocopy fields, and the byte-level decoder
@@ -35,6 +33,3 @@ Proof. vm_compute. reflexivity. Qed.
 Theorem C14_side_conditions : dec_params_ok = true.
 Proof. exact dec_params_ok_holds. Qed.
 
-(* the descriptor construction of desc.go reads as the model assumes (DisciplineChecks.desc_ok) *)
-Theorem C14_descriptor_shape : desc_ok = true.
-Proof. exact desc_ok_holds. Qed.
